@@ -10,13 +10,23 @@ import numpy as np
 from . import reffock as rf
 
 
-def gen_case(rng, allow_approx=True):
+FOCK_ONLY = {"Kgate", "Vgate", "CKgate"}  # accepted by the Fock backend only (pure vs mixed vs RefFock)
+
+
+def gen_case(rng, allow_approx=True, family="gaussian-ops"):
+    """family "gaussian-ops": cat / number / coherent states followed by Gaussian gates and loss (bosonic and Fock backends);
+    family "fock-ops": additionally GKP states (bosonic and Fock) and Kerr, cross-Kerr, cubic and quadratic phase gates and
+    two-mode squeezing (programs with a gate of FOCK_ONLY run on the Fock backend only)."""
     n = int(rng.choice([1, 2, 2]))
     cmds = []
     approx = False
     for m in range(n):
         r = rng.random()
-        if r < 0.55:
+        if family == "fock-ops" and r < 0.25:
+            cmds.append({"op": "GKP", "p": [float(rng.choice([0.0, np.pi, np.pi / 2, float(rng.uniform(0, np.pi))])),
+                                            float(rng.choice([0.0, float(rng.uniform(0, 6.28))]))],
+                         "eps": float(rng.uniform(0.45, 0.6)), "m": [m]})
+        elif r < 0.55:
             cmds.append({"op": "Catstate", "p": [float(rng.uniform(0.3, 1.1)), float(rng.choice([0.0, float(rng.uniform(0, 6.28))])),
                                                    float(rng.choice([0, 1, 0.5, float(rng.uniform(0, 2))]))], "m": [m]})
         elif r < 0.7 and allow_approx:
@@ -25,11 +35,22 @@ def gen_case(rng, allow_approx=True):
         elif r < 0.85:
             cmds.append({"op": "Coherent", "p": [float(rng.uniform(0.1, 0.5)), float(rng.uniform(0, 6.28))], "m": [m]})
         # else: vacuum
-    if not any(c["op"] in ("Catstate", "Fock") for c in cmds):
+    if not any(c["op"] in ("Catstate", "Fock", "GKP") for c in cmds):
         cmds.insert(0, {"op": "Catstate", "p": [float(rng.uniform(0.4, 1.0)), 0.0, float(rng.choice([0, 1]))], "m": [0]})
         cmds = [c for i, c in enumerate(cmds) if i == 0 or c["m"] != [0]]
     for _ in range(int(rng.integers(0, 5))):
         r = rng.random()
+        if family == "fock-ops" and rng.random() < 0.5:
+            nm = str(rng.choice(["Kgate", "Vgate", "Pgate"] + (["CKgate", "S2gate"] if n == 2 else [])))
+            if nm in ("CKgate", "S2gate"):
+                m = [int(x) for x in rng.permutation(2)]
+            else:
+                m = [int(rng.integers(n))]
+            p = {"Kgate": [float(rng.uniform(-1.5, 1.5))], "CKgate": [float(rng.uniform(-1.5, 1.5))],
+                 "Vgate": [float(rng.uniform(-0.06, 0.06))], "Pgate": [float(rng.uniform(-0.3, 0.3))],
+                 "S2gate": [float(rng.uniform(-0.15, 0.15)), float(rng.uniform(0, 6.28))]}[nm]
+            cmds.append({"op": nm, "p": p, "m": m, "dag": bool(rng.random() < 0.25)})
+            continue
         if n == 2 and r < 0.35:
             a, b = (int(x) for x in rng.permutation(2))
             cmds.append({"op": "BSgate", "p": [float(rng.uniform(0.2, 1.3)), float(rng.uniform(0, 6.28))], "m": [a, b], "dag": bool(rng.random() < 0.2)})
@@ -48,7 +69,10 @@ def build(sf, ops, case):
     prog = sf.Program(case["n"])
     with prog.context as q:
         for c in case["cmds"]:
-            op = getattr(ops, c["op"])(*c["p"])
+            if c["op"] == "GKP":
+                op = ops.GKP(state=list(c["p"]), epsilon=c["eps"])
+            else:
+                op = getattr(ops, c["op"])(*c["p"])
             if c.get("dag"):
                 op = op.H
             regs = tuple(q[i] for i in c["m"])
@@ -60,7 +84,9 @@ def ref_apply(f, c):
     """Advance the RefFock state by one command of the case."""
     D = f.D
     nm, p, m = c["op"], c["p"], c["m"]
-    if nm == "Catstate":
+    if nm == "GKP":
+        f.prepare_ket(rf.FState.gkp_ket(p[0], p[1], c["eps"], D), m[0])
+    elif nm == "Catstate":
         f.prepare_ket(rf.FState.cat_ket(p[0], p[1], p[2], D), m[0])
     elif nm == "Fock":
         f.prepare_ket(rf.FState.fock_ket(int(p[0]), D), m[0])
